@@ -198,4 +198,21 @@ def wMapped : NProg :=
       { start := ⟨3, 0⟩, stop := ⟨3, 0⟩, pscope := 0, isParamName := false, role := .endmarker, name := "" }],
     modNames := some ["macpath"] }
 
+/-- `wOk` with every definition spelled like the module, in the module `K.K` (file `K/K.py`):
+```
+class K:
+    def K(p):
+        a = ()
+    class K:
+        b = ()
+```
+the components of the module path and of `__qualname__` collide at every depth. -/
+def wCollide : NProg :=
+  { scopes := wOk.scopes.map fun sc => if sc.kind == .module then sc else { sc with name := "K" },
+    leaves := wOk.leaves.map fun l =>
+      match l.role with
+      | .defName _ => { l with name := "K" }
+      | _ => l,
+    modNames := some ["K", "K"] }
+
 end JediModel.Nesting.Witness
